@@ -554,7 +554,8 @@ package values
 //@ panics nothing
 //@ requires inrange: 0 <= i && i < len(s) && 0 <= j && j < len(s)
 //@ assigns nothing
-//@ ensures order: result == values.Less(s[i], s[j])
+//@ ensures nilFirst: s[i] == nil || s[j] == nil ==> result == (s[i] == nil && s[j] != nil)
+//@ ensures order: s[i] != nil && s[j] != nil ==> result == values.Less(s[i], s[j])
 
 //@ func values.NewRange
 //@ props C11 C01
